@@ -12,6 +12,7 @@ import (
 	"reflect"
 	"sort"
 	"strings"
+	"sync"
 	"time"
 	_ "time/tzdata"
 
@@ -403,10 +404,45 @@ func deepCopy(v any) any {
 
 func deepEqualJSON(a, b any) bool { return reflect.DeepEqual(a, b) }
 
+var (
+	keyOrderOnce sync.Once
+	keyOrder     bool
+)
+
+// membersInKeyOrder probes, once per process, whether .* and .** visit the members of an object
+// in the order of their sorted keys (the order the reference model uses). If they do, no
+// sequence order is open and every comparison is exact; if the implementation iterates in an
+// unspecified (random) order, the checks fall back on multiset comparison and on skipping the
+// cases whose very outcome depends on the order.
+func membersInKeyOrder() bool {
+	keyOrderOnce.Do(func() {
+		p1, e1, _ := ParseSafe("$.*")
+		p2, e2, _ := ParseSafe("$.**")
+		if e1 != nil || e2 != nil {
+			return
+		}
+		doc := MustDecode(`{"f":6,"b":2,"e":{"z":51,"y":52,"x":53,"w":54},"a":1,"d":4,"c":3,"g":7,"h":8}`, false)
+		want1 := "[1 2 3 4 {\"w\":54,\"x\":53,\"y\":52,\"z\":51} 6 7 8]"
+		want2 := "[{\"a\":1,\"b\":2,\"c\":3,\"d\":4,\"e\":{\"w\":54,\"x\":53,\"y\":52,\"z\":51},\"f\":6,\"g\":7,\"h\":8} 1 2 3 4 {\"w\":54,\"x\":53,\"y\":52,\"z\":51} 54 53 52 51 6 7 8]"
+		for i := 0; i < 40; i++ {
+			o1 := RunQuery(context.Background(), p1, doc)
+			o2 := RunQuery(context.Background(), p2, doc)
+			if fmt.Sprint(RenderSeq(o1.Items, false)) != want1 || fmt.Sprint(RenderSeq(o2.Items, false)) != want2 {
+				return
+			}
+		}
+		keyOrder = true
+	})
+	return keyOrder
+}
+
 // orderOpen is the syntactic over-approximation of "the evaluation iterates
 // the members of an object with two or more members": member order is random
 // on every call, so sequence order and which error is met first are open.
 func orderOpen(root *Node, docs ...any) bool {
+	if membersInKeyOrder() {
+		return false
+	}
 	wild := root.Has(func(n *Node) bool { return n.K == KAnyKey || n.K == KAny })
 	if !wild {
 		return false
